@@ -123,7 +123,7 @@ def make(interp):
     jnp = {
         "array": B(lambda x, dtype=None: A.astype(A.from_value(x), dtype) if dtype is not None else A.from_value(x)),
         "asarray": B(lambda x, dtype=None: A.astype(A.from_value(x), dtype) if dtype is not None else A.from_value(x)),
-        "zeros": B(lambda shape, dtype=None: A.zeros(shape)), "ones": B(lambda shape, dtype=None: A.zeros(shape, fill=1)),
+        "zeros": B(lambda shape, dtype=None: A.zeros(shape, dtype=dtype)), "ones": B(lambda shape, dtype=None: A.zeros(shape, dtype=dtype, fill=1)),
         "zeros_like": B(lambda a, dtype=None: A.zeros(a.shape) if isinstance(a, SArr) else 0),
         "full": B(lambda shape, v, dtype=None: A.zeros(shape, fill=v)),
         "arange": B(A.arange), "hstack": B(A.hstack), "vstack": B(A.vstack), "concatenate": B(lambda parts, axis=0: A.concat(parts, 0 if axis in (0, -1) else axis)),
